@@ -116,6 +116,51 @@ def run(ctx):
                     bad.append({'site': p.kind, 'in_fn': p.fn, 'file': p.file, 'line': p.line,
                                 'call_path': [s[0] for s in p.stack][-6:], 'why': why,
                                 'condition': tm.show(p.cond, 0, 5)[:300]})
+            # R-SLICELEN: the slice functions panic only when the slice is shorter than the element count.  Their panic conditions touch the
+            # length only through comparisons with constants, so they are decided on the finite set of orderings of the length against
+            # those constants: for every length >= N (N, the constants and their neighbours, a huge value) each condition must be false
+            if it.get('name') in SLICE_FNS and len(runs) == 1:
+                body_ = F.body(it['key'])
+                vty_ = body_['locals'][0] if it['name'].startswith('from_') else body_['locals'][1]
+                if F.types[vty_].get('k') == 'ptr':
+                    vty_ = F.types[vty_]['to']
+                hid_ = set(hidden_offsets(F, vty_))
+                N_ = len([1 for (o, sz, lt) in leaves_plain(F, vty_) if o not in hid_])
+                lens_ = [ln for (argi, base, oid, pty, mut, ln) in r.arg_objs if ln is not None]
+                why = None
+                if len(lens_) == 1 and N_ > 0:
+                    ln = lens_[0]
+                    ps = F.ptr_size
+                    for p in r.panics:
+                        if p.cond is tm.FALSE or ln not in p.cond.deps:
+                            continue
+                        ks = set()
+                        st_ = [p.cond]
+                        seen_ = set()
+                        while st_:
+                            x = st_.pop()
+                            if x.id in seen_:
+                                continue
+                            seen_.add(x.id)
+                            if tm.is_const(x):
+                                ks.add(tm.cbits(x))
+                            st_.extend(a for a in x.args if isinstance(a, tm.T))
+                        cand = {N_, N_ + 1, 1 << (8 * ps - 2)}
+                        for k in ks:
+                            for d in (-1, 0, 1):
+                                if N_ <= k + d < (1 << (8 * ps - 1)):
+                                    cand.add(k + d)
+                        for Lv in sorted(cand):
+                            v = tm.subst(p.cond, {ln: tm.const(Lv, ps)})
+                            if v is tm.TRUE:
+                                why = 'panics (%s in %s) for a slice of %d elements although only %d are needed: longer slices must be accepted' % (p.kind, p.fn, Lv, N_)
+                                break
+                        if why:
+                            break
+                if why:
+                    ctx.violation('R-SLICELEN', cfg, name, {'file': it['file'], 'line': it['line'], 'problem': why})
+                else:
+                    ctx.holds('R-SLICELEN', cfg, name)
             # R-ATOMIC: a documented panic is raised before any caller-visible memory is written (no partially written destination)
             if it.get('name') in ATOMIC_FNS and len(runs) == 1:
                 n_atomic += 1
